@@ -119,7 +119,8 @@ def unicode_string(rnd):
 FAULTS = ['ValueError', 'KeyError', 'ZeroDivisionError', 'RecursionError', 'MemoryError', 'StopIteration', 'AssertionError', 'SyntaxError', 'TypeError', 'OverflowError',
           'UnicodeDecodeError', 'IndexError', 'AttributeError', 'code-in-message', 'BadStr', 'return-hostile', 'return-error', 'return-nan', 'Exception-subclass',
           'XL#NULL!', 'XL#DIV/0!', 'XL#VALUE!', 'XL#REF!', 'XL#NAME?', 'XL#NUM!', 'XL#N/A', 'XL#GETTING_DATA', 'XL#ERROR!',
-          'ownXL:#CIRCULAR!', 'ownXL:', 'ownXL:two-args', 'ownXL:no-args', 'ownXL:#N/A', 'ownXL:badstr', 'return-ownXL:#CIRCULAR!', 'return-ownXL:two-args']
+          'ownXL:#CIRCULAR!', 'ownXL:', 'ownXL:two-args', 'ownXL:no-args', 'ownXL:#N/A', 'ownXL:badstr', 'return-ownXL:#CIRCULAR!', 'return-ownXL:two-args',
+          'chain:self-cause', 'chain:two-cycle', 'chain:ownXL-from-itself', 'chain:long', 'chain:context-cycle']
 
 
 class Fault(BaseException):
@@ -131,7 +132,7 @@ class Check(BaseCheck):
     TITLE = 'parse() is total: it always returns a well-formed result/error record'
     TECHNIQUE = 'icontract post-condition on Parser.parse + escape recorder + sys.monitoring step budget under hostile string/argument/fault workloads'
     RULE = ('case = one parse() call: (1) token soup, mutated valid formula or arbitrary Unicode string (incl. surrogates and 10 kB inputs); (2) one supported function at '
-            'arity 0,1,2 over every tuple of a 50-value pool of every type (exhaustive in the thorough tier; quick: all pairs of a 26-value core of every type plus sampled pairs) and sampled arity 3,4; (3) one formula with a fault (25 exception classes / hostile '
+            'arity 0,1,2 over every tuple of a 50-value pool of every type (exhaustive in the thorough tier; quick: all pairs of a 26-value core of every type plus sampled pairs) and sampled arity 3,4; (3) one formula with a fault (30 exception classes incl. cyclic and 3000-long cause chains / hostile '
             'return values) injected at one host-callback invocation, every invocation point x every fault class; (4) the repository\'s tests re-run under the contract. '
             'non-trivial = the evaluation reached at least one grammar action (reduction probe) and the three oracles were evaluated; distinct = distinct (formula, bindings class).')
     ASSUMPTIONS = ('BaseExceptions that are not Exceptions (KeyboardInterrupt, SystemExit, GeneratorExit) are control flow the host asks for and are not injected',
@@ -385,6 +386,26 @@ class Check(BaseCheck):
             obj = {'#CIRCULAR!': lambda: XL('#CIRCULAR!'), '': lambda: XL(''), 'two-args': lambda: XL('#N/A', 'detail'), 'no-args': lambda: XL(), '#N/A': lambda: XL('#N/A'),
                    'badstr': lambda: type('BadXL', (XL,), {'__str__': lambda self: 1 / 0})('x')}[what]()
             return ('return' if name.startswith('return') else 'raise', obj)
+        if name.startswith('chain:'):
+            # exceptions whose __cause__/__context__ chain is cyclic or very long (raise err from err; two errors naming each other)
+            what = name.split(':', 1)[1]
+            a, b = ValueError('first'), KeyError('second')
+            if what == 'self-cause':
+                a.__cause__ = a
+            elif what == 'two-cycle':
+                a.__cause__, b.__cause__ = b, a
+            elif what == 'context-cycle':
+                a.__context__, b.__context__ = b, a
+            elif what == 'ownXL-from-itself':
+                a = hx.errors().XLError('#N/A')
+                a.__cause__ = a
+            elif what == 'long':
+                cur = a
+                for k in range(3000):
+                    nxt = ValueError(k)
+                    cur.__cause__ = nxt
+                    cur = nxt
+            return ('raise', a)
         if name == 'code-in-message':
             return ('raise', ValueError('#NUM!'))
         if name == 'BadStr':
